@@ -1135,3 +1135,8 @@ mod tests {
         assert!(all_packs.is_empty());
     }
 }
+
+// verification hook (guard: cfg(kani), set only by the Kani compiler): harnesses live in /verif/kani
+#[cfg(kani)]
+#[path = "/verif/kani/check.rs"]
+mod verif_kani;
